@@ -313,18 +313,16 @@ def install(ex):
             return err
         return NotImplemented
 
-    def rsplitn_colon(ctx):
+    def at_last_colon(ctx, arg):
+        # (text before the last colon, text behind it) of a rope that ends `..:<decimal>`, or None
         ex_, st_ = ctx.ex, ctx.st
-        if not (re.search(r'::rsplitn::<char>$', ctx.callee) and len(ctx.args) == 3 and isinstance(ctx.args[1], Int) and concrete(ctx.args[1].t) == 2
-                and isinstance(ctx.args[2], Int) and concrete(ctx.args[2].t) == 0x3a):
-            return NotImplemented
-        b = ex_.deref(st_, ctx.args[0]) if isinstance(ctx.args[0], Ref) else ctx.args[0]
+        b = ex_.deref(st_, arg) if isinstance(arg, Ref) else arg
         if not isinstance(b, Bytes):
-            return NotImplemented
+            return None
         ps = pieces(b)
         tg = [tag_of(p) for p in ps]
         if len(ps) < 3 or any(t is None for t in tg) or tg[-1][0] != 'dec' or tg[-2][0] != 'lit' or not tg[-2][1].endswith(b':'):
-            return NotImplemented
+            return None
         # the last colon of the text is the one that ends the literal in front of the decimal piece
         head = ps[:-2]
         rest_lit = tg[-2][1][:-1]
@@ -335,7 +333,28 @@ def install(ex):
             hb = hb.concat(lit(rest_lit), 'str')
         if len(head) == 1 and not rest_lit:
             hb = head[0]
-        return Agg('str::ExplicitSplit', {0: SeqV.from_items([Ref(st_.alloc(ps[-1]), ()), Ref(st_.alloc(hb), ())], '&str', 'vec'), 1: Int(BV(0, 64), 64, False)})
+        return hb, ps[-1]
+
+    def rsplitn_colon(ctx):
+        ex_, st_ = ctx.ex, ctx.st
+        if not (re.search(r'::rsplitn::<char>$', ctx.callee) and len(ctx.args) == 3 and isinstance(ctx.args[1], Int) and concrete(ctx.args[1].t) == 2
+                and isinstance(ctx.args[2], Int) and concrete(ctx.args[2].t) == 0x3a):
+            return NotImplemented
+        r = at_last_colon(ctx, ctx.args[0])
+        if r is None:
+            return NotImplemented
+        hb, last = r
+        return Agg('str::ExplicitSplit', {0: SeqV.from_items([Ref(st_.alloc(last), ()), Ref(st_.alloc(hb), ())], '&str', 'vec'), 1: Int(BV(0, 64), 64, False)})
+
+    def rsplit_once_colon(ctx):
+        ex_, st_ = ctx.ex, ctx.st
+        if not (len(ctx.args) == 2 and isinstance(ctx.args[1], Int) and concrete(ctx.args[1].t) == 0x3a):
+            return NotImplemented
+        r = at_last_colon(ctx, ctx.args[0])
+        if r is None:
+            return NotImplemented
+        hb, last = r
+        return C.mk_option(ex_, Agg('tuple', {0: Ref(st_.alloc(hb), ()), 1: Ref(st_.alloc(last), ())}))
 
     def explicit_split_next(ctx):
         ex_, st_ = ctx.ex, ctx.st
@@ -360,6 +379,7 @@ def install(ex):
           (r'^core::str::<impl str>::parse::<(?:u8|u16|u32|u64|usize)>$', parse_int),
           (r'^<(?:std::net::)?SocketAddr as (?:std::str::)?FromStr>::from_str$|^core::str::<impl str>::parse::<(?:std::net::)?SocketAddr>$', socketaddr_from_str),
           (r'^core::str::<impl str>::rsplitn::<char>$', rsplitn_colon),
+          (r'^core::str::<impl str>::rsplit_once::<char>$', rsplit_once_colon),
           (r'^<(?:std::str::|core::str::)?RSplitN<.*> as Iterator>::next$', explicit_split_next)]
     for rx, f in ov:
         ex.overrides.append((re.compile(rx), f))
